@@ -131,15 +131,29 @@ func regClass(m *G) string {
 // unweighted model m (NewLaplacian and NewSymNormLaplacian take undirected
 // graphs only).
 func checkLaplacians(k *K, m *G, r *vrt.Rand, reps []Rep) {
-	if m.N == 0 || m.Weighted {
+	// A weighted model is handed over as a weighted graph type; the
+	// constructors take graph.Undirected / graph.Graph, which carry no weights:
+	// D holds "the degree of each node" and A is the adjacency matrix, so the
+	// expected entries are those of the link structure.
+	if m.N == 0 {
 		return
 	}
 	n := m.N
 	iso := "no-isolated"
+	pend := false
 	for i := 0; i < n; i++ {
-		if m.OutDeg(i) == 0 {
+		switch m.OutDeg(i) {
+		case 0:
 			iso = "isolated"
+		case 1:
+			pend = true
 		}
+	}
+	if pend {
+		iso += "+pendant"
+	}
+	if m.Weighted {
+		iso += "+weighted-type"
 	}
 	for _, rep := range reps {
 		kk := k.with(m, rep.String())
@@ -176,10 +190,16 @@ func checkLaplacians(k *K, m *G, r *vrt.Rand, reps []Rep) {
 						for j := 0; j < n; j++ {
 							got := l.At(idx[i], idx[j])
 							if i == j && m.OutDeg(i) == 0 {
-								// I-D^(-1/2)AD^(-1/2) is undefined for an isolated node; both
-								// conventions in use (0: Chung; 1: identity term kept) are accepted.
-								if got != 0 && got != 1 {
-									kk.viol("NewSymNormLaplacian|isolated|entry", matOut(l), "NewSymNormLaplacian: diagonal of isolated node %d is %g", m.IDs[i], got)
+								// D^(-1/2) does not exist for an isolated node. The normalised
+								// Laplacian is D^(-1/2)(D-A)D^(-1/2) (= I-D^(-1/2)AD^(-1/2) wherever the
+								// degrees are non-zero); the row and column of an isolated node of D-A
+								// are zero, so the entry is 0 under any finite convention for
+								// D^(-1/2)(v,v) (Chung, Spectral Graph Theory: L(u,u) = 1 only if
+								// d_u != 0). This is also what keeps the multiplicity of the eigenvalue
+								// 0 equal to the number of components and what the other two
+								// constructors do (zero row and column).
+								if got != 0 {
+									kk.viol("NewSymNormLaplacian|isolated|entry", matOut(l), "NewSymNormLaplacian: diagonal of isolated node %d is %g; D^(-1/2)(D-A)D^(-1/2) has a zero row and column for a node without edges (heat on it would otherwise decay although it has nowhere to go)", m.IDs[i], got)
 									break outer2
 								}
 								continue
@@ -423,6 +443,17 @@ func checkDiffusion(k *K, m *G, r *vrt.Rand, rep Rep) {
 					worst = math.Max(worst, math.Abs(x-want.D[i]))
 				}
 				band := diffuseRel * float64(n) * math.Max(hmax, 1e-300)
+				// a node without edges exchanges heat with nobody: whatever Laplacian
+				// of the graph is used, its heat stays what it was
+				for i, id := range m.IDs {
+					if m.OutDeg(i) == 0 && m.InDeg(i) == 0 {
+						if x, ok := got[id]; ok && !(math.Abs(x-h[id]) <= band) {
+							kk.viol("Diffuse|"+class+"|isolated-node-heat-changed", map[string]any{"t": t, "h": h, "got": got},
+								"Diffuse(t=%g, %s Laplacian): the heat of the isolated node %d changed from %g to %g", t, lp.name, id, h[id], x)
+							break
+						}
+					}
+				}
 				calib("Diffuse.err/band", worst/band)
 				if !(worst <= band) {
 					kk.viol("Diffuse|"+class+"|not-exp(-Lt)h", map[string]any{"t": t, "h": h, "got": got, "want": want.D, "index": idx},
